@@ -81,7 +81,7 @@ CHECKS['C15'] = dict(
 CHECKS['C03'] = dict(
    text='Theorems: the process() result contract (None sends nothing, lone Frame = main, {} delivered as a complete empty set, id carried from input to output, a deferred result is evaluated only by the '
         'send_maybe that publishes, at most once); THE LOSSLESS EDGE by refinement (C03_edge_lossless, C03_edge_nothing_dropped: for every interleaving of deliveries, poll answers, calls, timeouts and clock '
-        'values a synchronized subscribe-all consumer fed in order by a well-formed publisher is handed exactly the first k published frames - ids, topics, payloads - and all of them once its socket is drained); '
+        'values a synchronized consumer - subscribe-all or an explicit topic list with renaming - fed in order by a well-formed publisher is handed exactly the first k published frames as its subscription sees them - ids, topics, payloads - and all of them once its socket is drained; C03_edge_lossless, C03_edge_lossless_explicit, C03_edge_end_to_end: one generic refinement, two instances); '
         'MQGlue model compared with the real MQ.send/recv/process_frames; the real ZMQReceiver run on schedules machine-checked to satisfy the edge theorem hypotheses; chain/tee/tee-rejoin/join pipelines of REAL '
         'filters run in deterministic pipeline mode and compared with the functional reference.',
    note=PROTO_NOTE + ' The chain-composition theorem over the network model is not proved (partial): explored in pipeline mode.',
